@@ -186,7 +186,7 @@ def check_place_transitions(ctx, prog, I):
                     and terms[sq_terms[0]] is C1 and terms.get(('OPAQUE', 'h')) is C1
                 gp = terms.get(('P',), C0)
                 gs_ = terms.get(('STEP', 0), C0)
-                ok = ok and gp is B.bor(a1, a2) and gs_ is a2 and set(s[0] for s in terms) <= {'SQ', 'OPAQUE', 'P', 'STEP'}
+                ok = ok and (gp is B.bor(a1, a2) or gp is B.bxor(a1, a2)) and gs_ is a2 and set(s[0] for s in terms) <= {'SQ', 'OPAQUE', 'P', 'STEP'}
                 if ok and isinstance(sq_terms[0][2].args[0], BV):
                     ok = sq_terms[0][2].args[0] == pbit or _same_tz(sq_terms[0][2].args[0], pbit)
             ctx.ob('[%s] hash gains SQUARE[row %s %s][placement square] ^ [h1 or h7]PLAYER_TO_MOVE ^ [h7]STEP[0]' % (mode, side, p), ok,
